@@ -64,17 +64,17 @@ fn keys<C: Cs>(ctx: &Ctx, idx: u64, own_modulus_key: bool) {
         Some(sk2) if sk2 == sk => {}
         _ => ctx.violation("C18:roundtrip/secret-key/bytes", json!({"case":case})),
     }
-    if serde_json::from_str::<CL03PublicKey>(&serde_json::to_string(&pk).unwrap()).ok().as_ref() != Some(&pk) {
-        ctx.violation("C18:roundtrip/public-key/json", json!({"case":case}));
+    if let Some(mode) = json_modes(&pk) {
+        ctx.violation("C18:roundtrip/public-key/json", json!({"case":case,"mode":mode}));
     }
-    if serde_json::from_str::<CL03SecretKey>(&serde_json::to_string(&sk).unwrap()).ok().as_ref() != Some(&sk) {
-        ctx.violation("C18:roundtrip/secret-key/json", json!({"case":case}));
+    if let Some(mode) = json_modes(&sk) {
+        ctx.violation("C18:roundtrip/secret-key/json", json!({"case":case,"mode":mode}));
     }
-    if serde_json::from_str::<KeyPair<CL03<C>>>(&serde_json::to_string(&kp).unwrap()).ok().as_ref() != Some(&kp) {
-        ctx.violation("C18:roundtrip/key-pair/json", json!({"case":case}));
+    if let Some(mode) = json_modes(&kp) {
+        ctx.violation("C18:roundtrip/key-pair/json", json!({"case":case,"mode":mode}));
     }
-    if serde_json::from_str::<CL03CommitmentPublicKey>(&serde_json::to_string(&cpk).unwrap()).ok().as_ref() != Some(&cpk) {
-        ctx.violation("C18:roundtrip/commitment-key/json", json!({"case":case}));
+    if let Some(mode) = json_modes(&cpk) {
+        ctx.violation("C18:roundtrip/commitment-key/json", json!({"case":case,"mode":mode}));
     }
     let bj = serde_json::to_string(&bases).unwrap();
     if serde_json::from_str::<Bases>(&bj).map(|b| b.0).ok().as_ref() != Some(&bases.0) {
@@ -91,9 +91,8 @@ fn keys<C: Cs>(ctx: &Ctx, idx: u64, own_modulus_key: bool) {
         if ck.g_bases.len() != want || ck.N != pk.N {
             ctx.violation("C18:wrong-number-of-bases", json!({"case":c2,"asked":nm,"g":ck.g_bases.len()}));
         }
-        let js = serde_json::to_string(&ck).unwrap();
-        if serde_json::from_str::<CL03CommitmentPublicKey>(&js).ok().as_ref() != Some(&ck) {
-            ctx.violation("C18:roundtrip/commitment-key/json", json!({"case":c2,"json":js.chars().take(200).collect::<String>()}));
+        if let Some(mode) = json_modes(&ck) {
+            ctx.violation("C18:roundtrip/commitment-key/json", json!({"case":c2,"mode":mode}));
         }
         for g in ck.g_bases.iter().chain([&ck.h]) {
             if *g <= 1 || *g >= pk.N || Integer::from(g.gcd_ref(&pk.N)) != 1 {
@@ -124,14 +123,59 @@ fn keys<C: Cs>(ctx: &Ctx, idx: u64, own_modulus_key: bool) {
             Some(s2) if s2 == sig && s2.verify_multiattr(&pk, &bases, &msgs) => {}
             _ => ctx.violation("C18:roundtrip/signature/bytes", json!({"case":case})),
         }
-        match serde_json::from_str::<Signature<CL03<C>>>(&serde_json::to_string(&sig).unwrap()) {
-            Ok(s2) if s2 == sig => {}
-            _ => ctx.violation("C18:roundtrip/signature/json", json!({"case":case})),
+        if let Some(mode) = json_modes(&sig) {
+            ctx.violation("C18:roundtrip/signature/json", json!({"case":case,"mode":mode}));
         }
         ctx.count("signatures_round_tripped", 1);
     }
     RECORDS.lock().unwrap().push(rec);
     ctx.count("key_pairs_recorded", 1);
+}
+
+/// the random helpers called on several threads at once: pooled over all threads no large output may repeat
+fn randoms_across_threads(ctx: &Ctx) {
+    use zkryptium::utils::random::{random_number, random_prime, random_qr};
+    let threads = 6usize;
+    let per = ctx.t(150usize, 1000usize);
+    let barrier = std::sync::Barrier::new(threads);
+    let pool: std::sync::Mutex<std::collections::HashMap<(String, Integer), usize>> = std::sync::Mutex::new(Default::default());
+    let modulus = (Integer::from(1) << 512u32) + 75u32;
+    let scn = current_scenario();
+    std::thread::scope(|sc| {
+        for t in 0..threads {
+            let (barrier, pool, scn, modulus) = (&barrier, &pool, &scn, &modulus);
+            sc.spawn(move || {
+                set_scenario(scn);
+                barrier.wait();
+                let mut mine: Vec<(String, Integer)> = vec![];
+                let m = ctx.call("random helpers x N", "across-threads", None, || {
+                    for k in 0..per {
+                        mine.push(("random_bits(256)".into(), random_bits(256)));
+                        mine.push(("rand_int(0,2^300)".into(), rand_int(Integer::from(0), Integer::from(1) << 300u32)));
+                        mine.push(("random_number(2^512+75)".into(), random_number(modulus.clone())));
+                        mine.push(("random_qr(2^512+75)".into(), random_qr(modulus)));
+                        if k % 16 == 0 {
+                            mine.push(("random_prime(128)".into(), random_prime(128)));
+                        }
+                    }
+                    Ok::<_, ()>(())
+                });
+                if !m.outcome.is_ok() {
+                    ctx.violation("C18:random-helper-panicked", json!({"outcome":m.outcome.short()}));
+                }
+                let mut p = pool.lock().unwrap();
+                for e in mine {
+                    if let Some(t0) = p.get(&e) {
+                        ctx.violation("C18:random-output-repeated", json!({"function":e.0,"threads":[t0, &t],"same_thread":*t0 == t,"value":ihex(&e.1)}));
+                    } else {
+                        p.insert(e, t);
+                    }
+                }
+            });
+        }
+    });
+    ctx.count("random_outputs_pooled_across_threads", pool.lock().unwrap().len() as u64);
+    ctx.distinct("randoms/across-threads");
 }
 
 fn randoms(ctx: &Ctx, idx: u64) {
@@ -389,6 +433,7 @@ pub fn scenarios(ctx: &Ctx) -> Vec<Scenario> {
     }
     v.push(scenario("randoms", |c| randoms(c, 0)));
     v.push(scenario("toy-moduli", |c| toy_moduli(c, 0)));
+    v.push(scenario("randoms-across-threads", |c| randoms_across_threads(c)));
     v.push(scenario("special-codecs/CL1024", |c| special_codecs::<CL1024Sha256>(c)));
     if !ctx.quick() {
         v.push(scenario("special-codecs/CL2048", |c| special_codecs::<CL2048Sha256>(c)));
